@@ -143,6 +143,83 @@ func c06units(tier string) []mc.Unit {
 			r.Bound("tables", "all 25 table ids x 64 codons; all 2-codon strings; all tails; case masks; 3-codon splits")
 		}})
 	}
+	// structured families per table: every length 0..450 and geometrically beyond x shapes; gene-shaped sequences
+	// (every start codon of the table, a body without stops, every stop codon); upper/lower case split at every position
+	for _, id := range c06ids() {
+		id := id
+		us = append(us, mc.Unit{Name: fmt.Sprintf("sweep/table=%d", id), Weight: 40, Run: func(r *mc.Recorder) {
+			tbl := ncbiTable(id)
+			var t codon.Table
+			if p := catch(func() { t = codon.GetCodonTable(id) }); p != "" || len(t.AminoAcids) == 0 {
+				return // reported by table/<id>
+			}
+			var cnt int64
+			concat := func(s string, ks []int, what string) {
+				full := c06tr(r, id, t, tbl, s, "in-frame")
+				cnt++
+				for _, k := range ks {
+					k -= k % 3
+					if k <= 0 || k >= len(s) {
+						continue
+					}
+					a, _ := codon.Translate(s[:k], t)
+					c, _ := codon.Translate(s[k:], t)
+					cnt++
+					if a+c != full {
+						r.Failf("concatenation", fmt.Sprintf("table %d %s, %d letters, split at %d", id, what, len(s), k), nil, q(full), q(a+c))
+					}
+				}
+			}
+			lens := sweepLengths(1, tier2(tier, 450, 900), tier2(tier, 20000, 100000)) // the empty string is rejected with an error (outside the property)
+			for _, n := range lens {
+				shapes := dnaShapes(n)
+				shapes = append(shapes, shaped{"mixed case", lcgString("ACGTacgt", n, 8)}, shaped{"lower case", strings.ToLower(lcgString("ACGT", n, 9))})
+				for _, sh := range shapes {
+					concat(sh.s, []int{3, n / 2, n - 3}, sh.shape)
+				}
+			}
+			// gene-shaped
+			var sense []string
+			enumStrings("TCAG", 3, func(b []byte) {
+				if tbl[string(b)] != '*' {
+					sense = append(sense, string(b))
+				}
+			})
+			for _, start := range strings.Fields(ncbiCodes[id].starts) {
+				for _, stop := range strings.Fields(ncbiCodes[id].stops) {
+					for _, k := range []int{0, 1, 2, 3, 5, 8, 13, 20, 21, 22, 23, 24, 25, 26, 27, 30, 31, 32, 33, 34, 40, 45, 60, 100, 333, 1000} {
+						var b strings.Builder
+						b.WriteString(start)
+						x := uint32(k*7 + 1)
+						for i := 0; i < k; i++ {
+							x = x*1664525 + 1013904223
+							b.WriteString(sense[int(x>>16)%len(sense)])
+						}
+						b.WriteString(stop)
+						g := b.String()
+						ks := []int{3, len(g) - 3, len(g) / 2}
+						concat(g, ks, fmt.Sprintf("gene %s + %d codons + %s", start, k, stop))
+						concat(strings.ToLower(g), ks, fmt.Sprintf("lower-case gene %s + %d codons + %s", start, k, stop))
+						concat(g+"A", ks, fmt.Sprintf("gene %s + %d codons + %s and one more letter", start, k, stop))
+					}
+				}
+			}
+			// case split at every position
+			for _, n := range []int{60, 150, 204, 402, 1000} {
+				s := lcgString("ACGT", n, 12)
+				for h := 0; h <= n; h++ {
+					c06tr(r, id, t, tbl, s[:h]+strings.ToLower(s[h:]), "case")
+					c06tr(r, id, t, tbl, strings.ToLower(s[:h])+s[h:], "case")
+					cnt += 2
+				}
+			}
+			r.Eval(cnt)
+			r.AddStates(cnt)
+			r.AddTransitions(cnt)
+			r.AddNontrivial(cnt)
+			r.Bound("sweep", fmt.Sprintf("per table: %d lengths (every length to %d, then +7%% steps to %d) x about 22 shapes; complete genes for every start x stop codon x 26 body lengths; upper/lower split at every position of 5 sequences", len(lens), tier2(tier, 450, 900), lens[len(lens)-1]))
+		}})
+	}
 	// the tables the library offers are still NCBI's after the combining operations were used on them
 	// (runs last in its own unit: what a call may leave behind in the package would show here)
 	us = append(us, mc.Unit{Name: "after-combining", Weight: 30, Run: func(r *mc.Recorder) {
